@@ -330,6 +330,34 @@ Section Ranked.
   Lemma inv_acyclic s : Inv s -> forall a, ~ clos_trans actor (waits s) a a.
   Proof. intros HI a H. pose proof (waits_trans_rank s a a HI H). lia. Qed.
 
+  Lemma last_cons_cons {A} (x y d : A) l : last (x :: y :: l) d = last (y :: l) d.
+  Proof. reflexivity. Qed.
+
+  Lemma last_cons_default {A} (l : list A) : forall x d, last (x :: l) d = last l x.
+  Proof.
+    induction l as [|y l IH]; intros x d; [reflexivity|].
+    rewrite last_cons_cons, (IH y d), (IH y x). reflexivity.
+  Qed.
+
+  Lemma chain_bound s :
+    Inv s -> forall p a, wait_chain s a p ->
+                         List.length p + rk (comp_of (last p a)) <= rk (comp_of a).
+  Proof.
+    intros HI. induction p as [|b q IH]; intros a Hc; [cbn; lia|].
+    destruct Hc as [Hw Hq]. pose proof (waits_rank s a b HI Hw) as Hlt. specialize (IH b Hq).
+    rewrite (last_cons_default q b a). cbn [List.length]. lia.
+  Qed.
+
+  Lemma chain_last_awaited s :
+    Inv s -> forall p a, p <> [] -> wait_chain s a p -> exists x, E (comp_of x) (comp_of (last p a)).
+  Proof.
+    intros HI. induction p as [|b q IH]; intros a Hne Hc; [contradiction|].
+    destruct Hc as [Hw Hq]. destruct q as [|c q'].
+    - exists a. cbn. apply (inv_W s HI). now apply waitsb_waits.
+    - destruct (IH b) as [x Hx]; [discriminate|assumption|]. exists x.
+      now rewrite (last_cons_default (c :: q') b a).
+  Qed.
+
   Lemma waits_owes s a t : Inv s -> waits s a t -> owes s t a.
   Proof.
     intros HI Hw. apply owes_debt. rewrite (inv_D s HI).
@@ -477,6 +505,28 @@ Proof.
   - eapply inv_acyclic; eassumption.
   - intros a Ha. eapply inv_progress; eassumption.
   - eapply inv_not_deadlocked; eassumption.
+Qed.
+
+(* every chain of blocked callers is at most as long as the rank of its first actor *)
+Theorem wait_chain_bounded_lemma :
+  forall (edges : list site) (rank : comp -> option nat)
+         (comp_of : actor -> comp) (code_of : actor -> hid -> list instr),
+    rank_ok_b edges rank = true ->
+    (forall a h t h', In (ICall t h') (code_of a h) ->
+                      edge_in_b edges (comp_of a) (comp_of t) = true) ->
+    forall sched s, run code_of init sched = Some s ->
+    forall a p, wait_chain s a p ->
+      List.length p + rank_total rank (comp_of (last p a)) <= rank_total rank (comp_of a) /\
+      (p <> [] -> exists c, edge_in_b edges c (comp_of (last p a)) = true).
+Proof.
+  intros edges rank comp_of code_of Hrank Hcode sched s Hrun a p Hc.
+  set (E := fun c d => edge_in_b edges c d = true).
+  assert (HE : forall c d, E c d -> rank_total rank d < rank_total rank c).
+  { intros c d. apply rank_ok_edge. assumption. }
+  assert (HI : Inv comp_of E s).
+  { eapply reachable_inv; [exact Hcode|]. exists sched. exact Hrun. }
+  split; [eapply chain_bound; eassumption|].
+  intros Hne. destruct (chain_last_awaited comp_of E s HI p a Hne Hc) as [x Hx]. eauto.
 Qed.
 
 (* the callee serves the call on its own thread while the caller stays blocked *)
